@@ -285,22 +285,8 @@ fn run_proof_outline(e: &Sexp) -> R<Sexp> {
             let taken = t::parse_preds(taken)?;
             let ph = t::placeholder_map(&t::parse_placeholders(ph)?);
             match outline::ProofOutline::from_specification(spec, taken, &ph) {
-                Ok(w) => Ok(tagged(
-                    "ok",
-                    vec![
-                        t::proof_outline(&w.data),
-                        tagged(
-                            "warnings",
-                            w.warnings
-                                .iter()
-                                .map(|x| match x {
-                                    outline::ProofOutlineWarning::ExcessQuantifiedVariables(_) => s("ExcessQuantifiedVariables"),
-                                })
-                                .collect(),
-                        ),
-                    ],
-                )),
-                Err(err) => Ok(tagged("err", vec![s(t::po_error(&err))])),
+                Ok(w) => Ok(tagged("ok", vec![t::proof_outline(&w.data), t::po_warnings(&w.warnings)])),
+                Err(err) => Ok(t::po_error(&err)),
             }
         }
         _ => Err("proof_outline: (spec taken placeholders) expected".into()),
@@ -310,30 +296,10 @@ fn run_proof_outline(e: &Sexp) -> R<Sexp> {
 // ------------------------------------------------------------------ external equivalence
 
 fn ext_error(e: &ExternalEquivalenceTaskError) -> Sexp {
-    use ExternalEquivalenceTaskError as E;
-    let v = match e {
-        E::UnsupportedFormulaRepresentation => "UnsupportedFormulaRepresentation",
-        E::NonTightProgram(_) => "NonTightProgram",
-        E::ProgramContainsPrivateRecursion(_) => "ProgramContainsPrivateRecursion",
-        E::InputOutputPredicatesOverlap(_) => "InputOutputPredicatesOverlap",
-        E::InputPredicateInRuleHead(_) => "InputPredicateInRuleHead",
-        E::OutputPredicateInUserGuideAssumption(_) => "OutputPredicateInUserGuideAssumption",
-        E::OutputPredicateInSpecificationAssumption(_) => "OutputPredicateInSpecificationAssumption",
-        E::PlaceholdersWithIdenticalNamesDifferentSorts(_) => "PlaceholdersWithIdenticalNamesDifferentSorts",
-        E::AssumptionContainsNonInputSymbols(_) => "AssumptionContainsNonInputSymbols",
-        E::SpecificationContainsUnsupportedRoles(_) => "SpecificationContainsUnsupportedRoles",
-        E::ProofOutlineError(inner) => return tagged("err", vec![s("ProofOutlineError"), s(t::po_error(inner))]),
-    };
-    tagged("err", vec![s(v)])
+    t::ext_error(e)
 }
 fn ext_warning(w: &ExternalEquivalenceTaskWarning) -> Sexp {
-    use ExternalEquivalenceTaskWarning as W;
-    s(match w {
-        W::NonTightProgram(_) => "NonTightProgram",
-        W::InconsistentDirectionAnnotation(_) => "InconsistentDirectionAnnotation",
-        W::InvalidRoleWithinUserGuide(_) => "InvalidRoleWithinUserGuide",
-        W::DefinitionWithWarning(_) => "DefinitionWithWarning",
-    })
+    t::ext_warning(w)
 }
 
 fn var(x: &str) -> asp::Term {
